@@ -201,7 +201,17 @@ fn test_conn(c: &ConnCase) -> TestResult {
     let b = conn::build(c);
     let m = conn::conn_model(c, &b)?;
     let r0 = conn::run_conn(c, &b, IoFault::None, |_, _| None)?;
-    conn::check_clean_run(c, &b, &m, &r0)?;
+    // What a server does with requests a client *pipelines* is not covered by any statement (C07
+    // is about clients with one request outstanding): if the run without shutdown does not serve
+    // them one by one as the model says, the case has no reference and is skipped; with shutdown
+    // injected, only the C14 clauses themselves (signatures c14-*) are judged for such clients.
+    match conn::check_clean_run(c, &b, &m, &r0) {
+        Ok(_) => {},
+        Err(f) if c.pipelined && !f.sig.starts_with("c14-") && f.sig != "panic" && f.sig != "conn-spin" => {
+            return Ok(Outcome::new(false).label("pipelined-client-not-served-as-modelled"));
+        },
+        Err(f) => return Err(f),
+    }
     let total = r0.steps;
     if std::env::var_os("VERIF_DEBUG").is_some() && c.reqs.len() >= 9 { eprintln!("long pipeline: {} reqs, {} invocations, {} steps, kinds {:?}", c.reqs.len(), r0.invocations.len(), total, b.kinds); }
     let pts: Vec<usize> = if total <= 600 { (0..=total + 1).collect() } else { (0..300).chain((300..total).step_by(total / 300)).chain(total - 5..=total + 1).collect() };
@@ -209,7 +219,11 @@ fn test_conn(c: &ConnCase) -> TestResult {
     let mut saw_in_flight = false;
     let mut saw_idle = false;
     for k in pts {
-        let (inflight, idle) = check_shutdown(c, &b, &m, k)?;
+        let (inflight, idle) = match check_shutdown(c, &b, &m, k) {
+            Ok(x) => x,
+            Err(f) if c.pipelined && !f.sig.starts_with("c14-") && f.sig != "panic" && f.sig != "conn-spin" => continue,
+            Err(f) => return Err(f),
+        };
         saw_in_flight |= inflight;
         saw_idle |= idle;
         runs += 1;
